@@ -190,7 +190,8 @@ def mirror_state_tx(kind: int, dv: int, sv: int, mv: int, csv: int, val: str, fl
                 st = tr.get_state('rt0')
                 st.mk_metric_value()
                 st.MetricValue.Samples = list(pick(sel, ((), (Decimal('1.5'),), (Decimal('1'), Decimal('2')), (Decimal('0'),) * 3)))
-                st.MetricValue.DeterminationTime = 1700000001.0
+                # DeterminationTime is optional: every third payload choice leaves it out (val is the symbolic str)
+                st.MetricValue.DeterminationTime = None if len(val) == 1 else 1700000001.0
                 st.ActivationState = pm_types.ComponentActivation.ON if flag else pm_types.ComponentActivation.OFF
             expected['waveform_by_handle'] = ['rt0']
         orc.check(len(cap.sent) >= 1, 'no-report-sent')
